@@ -105,6 +105,30 @@ fn check_matop(case: &MatCase, ctx: &mut Ctx) -> Result<(), Fail> {
     Ok(())
 }
 
+// softmax over the whole value range of C03 (magnitudes far beyond exp underflow, all-negative,
+// all-positive, astronomically large): the general matop value classes never leave exp's range
+fn strat_softmax(t: Tier) -> BoxedStrategy<c03::SoftmaxCase> {
+    c03::strat_softmax(t)
+}
+
+fn check_softmax(case: &c03::SoftmaxCase, ctx: &mut Ctx) -> Result<(), Fail> {
+    let a = &case.a;
+    let eps = f64::EPSILON;
+    let mx = a.d.iter().cloned().fold(f64::NEG_INFINITY, f64::max);
+    ctx.nontrivial(a.d.len() >= 2 && a.d.iter().any(|x| *x != a.d[0]));
+    ctx.label_if(mx < 0.0, "all-negative");
+    ctx.label_if(mx < -745.0, "all-below-exp-underflow");
+    ctx.label_if(a.max_abs() > 40.0, "large-magnitude");
+    let b = Mat::zeros(1, 1);
+    let exp = model(&Op::Softmax, a, &b, eps);
+    for (name, got) in [("ndarray", exec::<f64, NdB>(&Op::Softmax, a, &b)?), ("ndarray-f-layout", exec::<f64, NdFB>(&Op::Softmax, a, &b)?), ("nalgebra", exec::<f64, NaB>(&Op::Softmax, a, &b)?)] {
+        let tag = format!("{}/softmax", name);
+        c03::softmax_props(&tag, a, &got, eps)?;
+        compare(&tag, &got, &exp)?;
+    }
+    Ok(())
+}
+
 fn strat_vecop(_t: Tier) -> BoxedStrategy<VecCase> {
     c03::veccase_strategy(12, false)
 }
@@ -208,6 +232,7 @@ pub fn property() -> Property {
     let mut subs = vec![
         sub("matops", (8000, 300000), strat_matop, check_matop),
         sub("vecops", (3000, 100000), strat_vecop, check_vecop),
+        sub("softmax", (1500, 50000), strat_softmax, check_softmax),
         sub("lu", (400, 10000), s_lu, check_lu),
         sub("qr", (400, 10000), s_qr, check_qr),
         sub("cholesky", (400, 10000), s_chol, check_chol),
